@@ -2,3 +2,5 @@ import ArcheGen.Build256
 import ArcheGen.Build64
 import ArcheGen.Arith
 import ArcheGen.Facts
+import ArcheGen.Pool256
+import ArcheGen.Pool64
